@@ -1,7 +1,90 @@
-"""Exhaustive model checking of the design-level specifications (bounded configurations)."""
+"""Exhaustive model checking of the design-level specifications (bounded configurations).
+
+Every config is run on the faithful model (must pass: a failure is a defect of the MODEL, reported as
+infrastructure, never as a violation of the code - verdicts on the code come only from conformance),
+and with named deviations (must FAIL on the named invariant: the invariants are not vacuous)."""
+import os
 import lib
 
 
 def broker_mc(run, prop):
     # filled in by BrokerMC.tla (see DESIGN.md); until then only trace validation contributes states
     return
+
+
+def _cfg(name, **subst):
+    t = open(os.path.join(lib.SPEC, name)).read()
+    for k, v in subst.items():
+        t = t.replace("@@%s@@" % k, v)
+    return t
+
+
+def _expect(r, what, bad=None):
+    """bad=None: the run must finish clean; otherwise it must violate the invariant/property `bad`"""
+    if bad is None:
+        if not r.ok() or not r.finished or r.invariant:
+            raise lib.Infra("design model %s does not satisfy its own properties (model defect, not a code verdict):\n%s" % (what, r.out[-2500:]))
+    else:
+        if r.invariant is None or (bad != "temporal" and r.invariant != bad and bad not in r.out):
+            raise lib.Infra("deviation run %s did not violate %s (vacuous invariant?):\n%s" % (what, bad, r.out[-2500:]))
+
+
+ALL = ("0..Total", "1..Total")
+STREAM_D = [   # packets, limits, cuts, steps
+    ("<<P2, P3, P2>>", "{0, 2, 3}") + ALL,
+    ("<<P3, P130, P2>>", "{0, 3, 129, 130}") + ALL,
+    ("<<P2, PBad, P2>>", "{0}") + ALL,
+    ("<<P4, P2, P4>>", "{0, 3, 4}") + ALL,
+]
+STREAM_D_THOROUGH = [
+    ("<<P130, P130, P3>>", "{0, 129, 130, 131}") + ALL,
+    ("<<P2, P3, P4, P2, P3>>", "{0, 2, 3, 4}") + ALL,
+    ("<<P3, PBad, P130>>", "{0, 3}") + ALL,
+    ("<<P16K, P2>>", "{0, 16387, 16388}", "{0, 1, 3, 4, 5, 4096, 4097, 16387, 16388, 16389, 16390}", "{1, 2, 4095, 4096, 4097, 8192}"),
+]
+STREAM_C = [   # senders, per sender, sync rule
+    ('"s1", "s2"', "2", "i = 2"),
+    ('"s1", "s2", "s3"', "1", 's = "s1"'),
+]
+STREAM_C_THOROUGH = [
+    ('"s1", "s2", "s3"', "2", 's = "s1" \\/ i = 2'),
+    ('"s1", "s2"', "3", "i = 3"),
+    ('"s1", "s2", "s3", "s4"', "1", 's \\in {"s1", "s2"}'),
+]
+
+
+def stream_mc(run, prop):
+    """Stream.tla: decoder over all delivery schedules (C03), BaseConn senders/closer/carrier over all interleavings (C19)."""
+    wd, tier = run.wd, run.tier
+    states = trans = 0
+    configs = []
+    if prop == "C03":
+        for pk, lim, cuts, steps in STREAM_D + (STREAM_D_THOROUGH if tier == "thorough" else []):
+            r = lib.tlc(wd, "StreamMC", _cfg("StreamD.cfg", DEV=""), timeout=1500,
+                        defs={"PKTS": pk, "LIMITS": lim, "CUTS": cuts, "STEPS": steps})
+            _expect(r, "StreamD %s" % pk)
+            states += r.distinct; trans += r.generated
+            configs.append("decoder %s limits %s: %d states" % (pk, lim, r.distinct))
+        r = lib.tlc(wd, "StreamMC", _cfg("StreamD.cfg", DEV='"LimitAfterRead"'), timeout=600,
+                    defs={"PKTS": "<<P2, P4, P2>>", "LIMITS": "{3}", "CUTS": "0..Total", "STEPS": "1..Total"})
+        _expect(r, "StreamD LimitAfterRead", "LimitBeforeBuffer")
+        r = lib.tlc(wd, "StreamMC", _cfg("StreamD.cfg", DEV='"EofHidesPartial"'), timeout=600,
+                    defs={"PKTS": "<<P2, P4, P2>>", "LIMITS": "{0}", "CUTS": "0..Total", "STEPS": "1..Total"})
+        _expect(r, "StreamD EofHidesPartial", "SameAsReference")
+        run.add(states=states, transitions=trans, exhaustive=True, design_configs=configs,
+                design_deviations=["LimitAfterRead -> LimitBeforeBuffer violated", "EofHidesPartial -> SameAsReference violated"])
+    else:
+        for snd, per, sync in STREAM_C + (STREAM_C_THOROUGH if tier == "thorough" else []):
+            r = lib.tlc(wd, "StreamMC", _cfg("StreamC.cfg", DEV="", SENDERS=snd, PER=per), timeout=2500,
+                        defs={"PKTS": "<<P2>>", "LIMITS": "{0}", "SYNC": sync})
+            _expect(r, "StreamC %s x %s" % (snd, per))
+            states += r.distinct; trans += r.generated
+            configs.append("senders {%s} x %s sends, flushed when %s: %d states" % (snd, per, sync, r.distinct))
+        for dev, bad in (("NoSendMutex", "WireWhole"), ("CloseBeforeFlush", "CloseFlushesAccepted"), ("CloseSkipsMutex", "WireWhole"),
+                         ("NoStickyError", "temporal")):
+            r = lib.tlc(wd, "StreamMC", _cfg("StreamC.cfg", DEV='"%s"' % dev, SENDERS='"s1", "s2"', PER="2"), timeout=900,
+                        defs={"PKTS": "<<P2>>", "LIMITS": "{0}", "SYNC": "i = 2"})
+            _expect(r, "StreamC " + dev, bad)
+        run.add(states=states, transitions=trans, exhaustive=True, design_configs=configs,
+                design_deviations=["NoSendMutex -> WireWhole", "CloseBeforeFlush -> CloseFlushesAccepted", "CloseSkipsMutex -> WireWhole",
+                                   "NoStickyError -> BufferedSendFailsEventually"])
